@@ -7,7 +7,10 @@ Proof. unfold mount_beq. rewrite !beq_refl. now destruct (m_shadow m). Qed.
 Lemma list_beq_refl {A} (eq : A -> A -> bool) : (forall x, eq x x = true) -> forall l, list_beq eq l l = true.
 Proof. intros H. induction l; cbn; auto. now rewrite H, IHl. Qed.
 Lemma device_beq_refl d : device_beq d d = true.
-Proof. unfold device_beq. rewrite !beq_refl. cbn. apply list_beq_refl. apply beq_refl. Qed.
+Proof.
+  unfold device_beq. rewrite !beq_refl. cbn. rewrite (list_beq_refl beq beq_refl). cbn.
+  apply list_beq_refl. intros x. now rewrite !beq_refl.
+Qed.
 Lemma probe_res_beq_refl p : probe_res_beq p p = true.
 Proof. destruct p; cbn; auto. rewrite !list_beq_refl; auto using mount_beq_refl, device_beq_refl. Qed.
 Lemma src_res_beq_refl s : src_res_beq s s = true.
